@@ -6,6 +6,7 @@ use simlib::{
     builder::C18Engine,
     hist::C01Engine,
     io::C06Engine,
+    pipe::{C05Adv, C05Real},
     runner::{install_panic_hook, replay, run_range, Engine, Tier},
 };
 
@@ -53,6 +54,8 @@ fn main() {
         Some("c01") => drive::<C01Engine>(&args),
         Some("c18") => drive::<C18Engine>(&args),
         Some("c06") => drive::<C06Engine>(&args),
+        Some("c05r") => drive::<C05Real>(&args),
+        Some("c05a") => drive::<C05Adv>(&args),
         Some("c02") => drive::<C02Engine>(&args),
         Some("c03") => drive::<C03Engine>(&args),
         Some("c15") => drive::<C15Engine>(&args),
